@@ -390,7 +390,7 @@ theorem receivedAck_skrel {s : State} (g : SeqGens s) (env : Env) (ranges : List
           unfold State.ackCore at hok ⊢
           by_cases h1 : s1.ackedBuf > 0
           · simp [h1] at hok
-          · by_cases h2' : lvl = .oneRTT ∧ sp.hist.skipped.any (acksPacket ranges bot.1 top.2)
+          · by_cases h2' : lvl = .oneRTT ∧ sp.hist.skipped.any (acksPacketBin ranges bot.1 top.2)
             · simp [h1, h2'] at hok
             · simp only [h1, h2', if_false] at hok ⊢
               cases hc : collect (decide (ranges.length > 1)) bot.1 top.2 sp.hist.first sp.hist.packets ranges.reverse sp.hist.probes [] [] with
@@ -448,13 +448,14 @@ theorem ptoSwitch_skrel {s : State} (_g : SeqGens s) (lvl : Level) (nts : PN) (e
 theorem timeoutMain_skrel {s : State} (g : SeqGens s) (env : Env) (now : Time) (nts : PN) (evs0 : List Ev) (disc0 : List Frame)
     (hok : (s.timeoutMain env now nts evs0 disc0).2.res = .ok) :
     SkRel (s.timeoutMain env now nts evs0 disc0).1 s (s.timeoutMain env now nts evs0 disc0).2.skipped := by
-  unfold State.timeoutMain at hok ⊢
+  unfold State.timeoutMain State.timeoutMainG at hok ⊢
   split
   · exact detectLostPackets_skrel g _ _ _
   · rename_i h0
     rw [if_neg h0] at hok
     split
-    · simp only []
+    · unfold State.antiDeadlockProbe
+      simp only []
       split
       · exact SkRel_eq rfl rfl rfl
       · split <;> exact SkRel_eq rfl rfl rfl
